@@ -473,7 +473,8 @@ def c07_5(ctx):
     arg = pf.call_params[0].arg
     parser = {}
     order = []
-    node = next((s for s in pf.node.body if isinstance(s, ast.If)), None)
+    from engine.helpers import folded_chain
+    node = next((s for s in folded_chain(pf) if isinstance(s, ast.If)), None)
     while node is not None:
         tests = node.test.values if isinstance(node.test, ast.BoolOp) and isinstance(node.test.op, ast.Or) else [node.test]
         ret = next((s for s in node.body if isinstance(s, ast.Return)), None)
